@@ -343,6 +343,9 @@ func FunctionMap() map[string]physical.FunctionDetails {
 					OutputType:    octosql.Duration,
 					Strict:        true,
 					Function: func(values []octosql.Value) (octosql.Value, error) {
+						if values[1].Int == 0 {
+							return octosql.ZeroValue, fmt.Errorf("division by zero")
+						}
 						return octosql.NewDuration(values[0].Duration / time.Duration(values[1].Int)), nil
 					},
 				},
